@@ -12,7 +12,7 @@
    as an oracle that tiles the buffer, C03), the C glue and the keyboard-layout tables, wall-clock time. *)
 From Coq Require Import NArith List Bool Arith Lia.
 From LC Require Import Base.Lib Gen.Keyboard_gen Model.Keyboard Gen.Editor_gen Model.Syllable Model.Composition Model.Conversion Model.Editor Model.EditorRun
-     Model.EdInst Proofs.CompositionProofs Proofs.EdInstProofs Proofs.EditorInv Proofs.EditorWitness Proofs.EditorSelect Proofs.NoPanic Proofs.KeyEventsOk Proofs.GraphPath Model.Engine Proofs.EngineProofs Proofs.SimpleEngineProofs Model.CapiKeys Model.CapiConfig Model.CapiRun Proofs.CapiKeysProofs.
+     Model.EdInst Proofs.CompositionProofs Proofs.EdInstProofs Proofs.EditorInv Proofs.EditorWitness Proofs.EditorSelect Proofs.NoPanic Proofs.KeyEventsOk Proofs.GraphPath Model.Engine Proofs.EngineProofs Proofs.SimpleEngineProofs Model.CapiKeys Model.CapiConfig Model.CapiRun Proofs.CapiKeysProofs Proofs.EngineTiles.
 From Coq Require Import ZArith Permutation.
 From LC Require Model.Config.
 From LC Require Proofs.LearnProofs.
@@ -210,22 +210,13 @@ Print Assumptions C01_conversion_engine_never_panics.
 Theorem C01_engine_meets_the_oracle_contract : forall sortu lookup spell c n,
   (forall l, Permutation (sortu l) l) -> lookup [] = [] -> wf_comp c -> clen c <= 4000 ->
   contiguous 0 (clen c) (engine_alt sortu spell lookup c n) = true.
-Proof.
-  intros sortu lookup spell c n Hp Hn Wc Hl. unfold engine_alt, chewing_convert.
-  destruct (chewing_convert_spec lookup Hn spell c Wc sortu Hp Hl) as (alts & b & -> & Hne & Hall). cbn [bind fst].
-  apply Hall. apply nth_In. apply Nat.mod_upper_bound. destruct alts; [contradiction | discriminate].
-Qed.
+Proof. exact engine_alt_tiles. Qed.
 Print Assumptions C01_engine_meets_the_oracle_contract.
 
 (* the executable instance the correspondence check runs (stable insertion sort = what
    core::slice::sort::unstable::sort does for at most 20 elements) is such a sort *)
 Theorem C01_sort_by_len_permutes : forall l, Permutation (sort_by_len l) l.
-Proof.
-  assert (Hi : forall p l, Permutation (insert_by_len p l) (p :: l)).
-  { intros p. induction l as [|x l IH]; cbn [insert_by_len]; [reflexivity|].
-    destruct (Nat.leb (length p) (length x)); [reflexivity|]. rewrite IH. apply perm_swap. }
-  induction l as [|x l IH]; cbn; [reflexivity|]. now rewrite Hi, IH.
-Qed.
+Proof. exact sort_by_len_permutes. Qed.
 Print Assumptions C01_sort_by_len_permutes.
 
 (* the pinned tree (before fix 2d722b2): a phrase frequency that does not fit in i32 - any u32 is a legal
@@ -319,28 +310,6 @@ Print Assumptions C01_no_history_panics_or_hangs_instance.
    alternative of the Chewing / Fuzzy engine model): no history of operations panics or hangs.  The engine
    model is exact for buffers of up to 4000 symbols (the C API's limit is 39); m_conv answers longer ones
    with one interval per symbol, outside the model. *)
-Lemma m_conv_tiles : forall d k c n, md_fine d -> wf_comp c -> contiguous 0 (clen c) (m_conv d k c n) = true.
-Proof.
-  intros d k c n Hd Wc. unfold m_conv.
-  assert (Hs : contiguous 0 (clen c) (simple_convert (m_lookup1 d) spell c) = true) by (now apply simple_convert_contiguous).
-  assert (He : forall f, clen c <= 4000 ->
-               contiguous 0 (clen c) (engine_alt sort_by_len spell (fun syms => md_lookup d f (syl_prefix syms)) c n) = true).
-  { intros f Hl. apply C01_engine_meets_the_oracle_contract; [apply C01_sort_by_len_permutes | | exact Wc | exact Hl].
-    cbn [syl_prefix]. apply md_ok_lookup. now apply md_fine_ok. }
-  destruct k; [exact Hs | |]; (destruct (Nat.leb (clen c) 4000) eqn:E; [apply He; now apply Nat.leb_le | exact Hs]).
-Qed.
-
-Lemma mf_conv_tiles : forall d k c n, md_fine d -> wf_comp c -> contiguous 0 (clen c) (mf_conv d k c n) = true.
-Proof.
-  intros d k c n Hd Wc. unfold mf_conv.
-  assert (Hs : contiguous 0 (clen c) (simple_convert (m_lookup1 d) spell c) = true) by (now apply simple_convert_contiguous).
-  assert (He : forall f, clen c <= 4000 ->
-               contiguous 0 (clen c) (engine_alt sort_by_len spell (fun syms => mdf_lookup d f (syl_prefix syms)) c n) = true).
-  { intros f Hl. apply C01_engine_meets_the_oracle_contract; [apply C01_sort_by_len_permutes | | exact Wc | exact Hl].
-    cbn [syl_prefix]. apply (mdf_ok_lookup d f). now apply md_fine_ok. }
-  destruct k; [exact Hs | |]; (destruct (Nat.leb (clen c) 4000) eqn:E; [apply He; now apply Nat.leb_le | exact Hs]).
-Qed.
-
 Theorem C01_no_history_panics_or_hangs_with_the_modelled_engines : forall ss d s0 ab t0 ops,
   ss_good ss -> ss_cursor ss = None -> md_fine d -> Forall op_fine ops ->
   fine (run md_ops std_ops m_conv (init_editor d s0 ab ss t0) ops).
@@ -387,10 +356,7 @@ Theorem C01_no_sequence_of_C_calls_panics_or_hangs : forall ss d ab t0 ops,
   fine (crun mf_conv (cx_init d ab ss t0) ops).
 Proof.
   intros ss d ab t0 ops Hg Hf Hd Hops.
-  apply (crun_fine mf_conv mf_conv_tiles ss Hg Hf); [exact Hops|].
-  constructor; [|vm_compute; reflexivity].
-  unfold cx_init, ml_init. cbn [cx_ed].
-  eapply (init_inv mdf_ops lay_ops); try eassumption.
+  apply (crun_fine mf_conv mf_conv_tiles ss Hg Hf); [exact Hops|]. now apply cx_init_inv.
 Qed.
 Print Assumptions C01_no_sequence_of_C_calls_panics_or_hangs.
 
